@@ -378,6 +378,45 @@ func buildSched(spec string) core.Schedule {
 	return schedule.NewComposite(parts...)
 }
 
+// a rate written as a decimal ("2.5", "100") as the rational num/den
+func decOps(x string) (num, den int64) {
+	den = 1
+	if i := strings.IndexByte(x, '.'); i >= 0 {
+		for range x[i+1:] {
+			den *= 10
+		}
+		x = x[:i] + x[i+1:]
+	}
+	num, _ = strconv.ParseInt(x, 10, 64)
+	return
+}
+
+// const profile of rate ops for dms milliseconds: whole periods that fit (exact arithmetic)
+func constCount(ops string, dms int64) int64 {
+	num, den := decOps(ops)
+	if num <= 0 {
+		return 0
+	}
+	return num * dms / (den * 1000)
+}
+
+// 1e9/ops is a whole number of ns (then the offsets i*1e9/ops are exact in the float evaluation too)
+func exactPeriod(ops string) bool {
+	num, den := decOps(ops)
+	return num > 0 && (1000000000*den)%num == 0
+}
+
+// every const part of the spec has a whole-ns period
+func exactSpec(spec string) bool {
+	for _, p := range strings.Split(expandSpec(spec), "+") {
+		f := strings.Split(p, ":")
+		if f[0] == "const" && f[1] != "0" && !exactPeriod(f[1]) {
+			return false
+		}
+	}
+	return true
+}
+
 // offsets (from the start of the profile) of the tokens of the CONFIGURED profile, as the
 // documentation describes the profile kinds; checked against the Coq model by the `drain` cases
 func expectedOffsets(spec string) []time.Duration {
@@ -393,11 +432,14 @@ func expectedOffsets(spec string) []time.Duration {
 			}
 		case "const":
 			d := time.Duration(at(2)) * time.Millisecond
-			if at(1) > 0 {
-				n := at(1) * at(2) / 1000
-				for i := int64(0); i < n; i++ {
-					out = append(out, cur+time.Duration(i*(1000000000/at(1))))
+			num, den := decOps(f[1])
+			n := constCount(f[1], at(2))
+			for i := int64(0); i < n; i++ {
+				off := i * 1000000000 * den / num
+				if !exactPeriod(f[1]) && off > 0 {
+					off-- // the float evaluation of i*1e9/ops may be 1 ns below the exact quotient
 				}
+				out = append(out, cur+time.Duration(off))
 			}
 			cur += d
 		case "istep":
@@ -771,6 +813,10 @@ func runCase(c string) string {
 		return runDrain(f)
 	case f[0] == "fincb" && len(f) == 4:
 		return runFincb(f)
+	case f[0] == "count" && len(f) == 2:
+		return runCount(f)
+	case f[0] == "cfg" && len(f) == 7:
+		return runCfg(f)
 	}
 	return "unknown-case"
 }
@@ -786,7 +832,7 @@ func startupCount(spec string) int {
 		case "once":
 			n += at(1)
 		case "const":
-			n += at(1) * at(2) / 1000
+			n += int(constCount(f[1], int64(at(2))))
 		case "istep":
 			n += at(1)
 			for i := at(1) + at(3); i <= at(2); i += at(3) {
@@ -810,7 +856,9 @@ func genStartup(r *vh.Rand) string {
 }
 
 func genStartup1(r *vh.Rand) string {
-	switch r.Intn(9) {
+	switch r.Intn(11) {
+	case 9, 10: // const parts whose ops x duration is not a whole number: only the whole periods release a token
+		return genFracStartup(r)
 	case 0, 1:
 		return fmt.Sprintf("once:%d", r.Range(1, 12))
 	case 2, 3:
@@ -889,6 +937,9 @@ func gen(r *vh.Rand, tier string) []string {
 			st = fmt.Sprintf("once:%d+const:0:%d+const:%d:%d", r.Range(1, 3), P, r.PickInt([]int{100, 200, 500}), r.PickInt([]int{20, 40}))
 		case 3:
 			st = fmt.Sprintf("const:%d:%d", r.PickInt([]int{100, 200, 500}), r.PickInt([]int{30, 60}))
+			if r.Bool() {
+				st = genFracStartup(r)
+			}
 		default:
 			st = fmt.Sprintf("once:%d+const:0:%d+once:1+const:0:%d+once:%d", r.Range(1, 3), P, r.PickInt([]int{D / 2, D, 2 * D}), r.Range(1, 2))
 		}
@@ -911,13 +962,33 @@ func gen(r *vh.Rand, tier string) []string {
 		}
 		out = append(out, fmt.Sprintf("wait %s %s", st, ws))
 	}
+	// the token count of const profiles with fractional ops x duration (draining takes no time)
+	out = append(out, "drain const:2.5:1000", "count const:0.5:3000+once:1", "drain const:2.5:100", "count const:0.29:10000", "drain const:62.5:40",
+		"count const:7.5:200", "count const:0.9:1000", "drain once:2+const:12.5:200+once:1", "count const:33.3:100+const:1.5:1000")
+	for i := 0; i < ns/8; i++ {
+		st := genFracStartup(r)
+		if exactSpec(st) {
+			out = append(out, "drain "+st)
+		} else {
+			out = append(out, "count "+st)
+		}
+	}
+	ncfg := 45
+	if tier == "thorough" {
+		ncfg = 600
+	}
+	out = append(out, genCfg(r, ncfg)...)
 	drained := map[string]bool{}
 	for i := 0; i < ns; i++ {
 		st := genStartup(r)
 		K := startupCount(st)
 		if !drained[st] {
 			drained[st] = true
-			out = append(out, "drain "+st)
+			if exactSpec(st) {
+				out = append(out, "drain "+st)
+			} else {
+				out = append(out, "count "+st)
+			}
 		}
 		perInst := r.Bool()
 		var T, A, shoot, cancelMs int
